@@ -158,6 +158,8 @@ def hostile_kind(h):
         return "quote"
     if h.isdigit():
         return "digits"
+    if "  " in h:
+        return "blank-run"
     if "%" in h or "{" in h:
         return "format"
     return "other"
